@@ -1070,6 +1070,74 @@ mod if_alloc {
             }
         }
 
+        #[cfg(futures_intrusive_verif)]
+        impl<MutexType, T, A> GenericSender<MutexType, T, A>
+        where
+            MutexType: RawMutex,
+            A: RingBuf<Item = T>,
+        {
+            /// Verification hook: snapshot of the channel plus handle counts
+            pub fn verif_snapshot(
+                &self,
+                id: &dyn Fn(&T) -> u64,
+            ) -> crate::verif::Snapshot {
+                let mut snap = self.inner.channel.verif_snapshot(id);
+                snap.flags.push((
+                    "senders",
+                    self.inner.senders.load(Ordering::SeqCst) as u64,
+                ));
+                snap.flags.push((
+                    "receivers",
+                    self.inner.receivers.load(Ordering::SeqCst) as u64,
+                ));
+                snap
+            }
+        }
+
+        #[cfg(futures_intrusive_verif)]
+        impl<MutexType, T, A> GenericReceiver<MutexType, T, A>
+        where
+            MutexType: RawMutex,
+            A: RingBuf<Item = T>,
+        {
+            /// Verification hook: snapshot of the channel plus handle counts
+            pub fn verif_snapshot(
+                &self,
+                id: &dyn Fn(&T) -> u64,
+            ) -> crate::verif::Snapshot {
+                let mut snap = self.inner.channel.verif_snapshot(id);
+                snap.flags.push((
+                    "senders",
+                    self.inner.senders.load(Ordering::SeqCst) as u64,
+                ));
+                snap.flags.push((
+                    "receivers",
+                    self.inner.receivers.load(Ordering::SeqCst) as u64,
+                ));
+                snap
+            }
+        }
+
+        #[cfg(futures_intrusive_verif)]
+        impl<MutexType, T, A> SharedStream<MutexType, T, A>
+        where
+            MutexType: RawMutex,
+            A: 'static + RingBuf<Item = T>,
+        {
+            /// Verification hook: snapshot of the channel plus handle counts
+            pub fn verif_snapshot(
+                &self,
+                id: &dyn Fn(&T) -> u64,
+            ) -> crate::verif::Snapshot {
+                self.receiver.verif_snapshot(id)
+            }
+
+            /// Verification hook: wait node of the embedded receive future
+            pub fn verif_node(&self) -> Option<crate::verif::NodeInfo> {
+                self.future.as_ref().map(|f| f.verif_node())
+            }
+        }
+
         // Export parking_lot based shared channels in std mode
         #[cfg(feature = "std")]
         mod if_std {
@@ -1140,3 +1208,72 @@ mod if_alloc {
 
 #[cfg(feature = "alloc")]
 pub use self::if_alloc::*;
+
+#[cfg(futures_intrusive_verif)]
+mod verif_hooks {
+    use super::*;
+    use crate::channel::channel_future::verif_hooks::{
+        recv_node_info, send_node_info,
+    };
+    use crate::verif::Snapshot;
+
+    impl<MutexType: RawMutex, T, A> GenericChannel<MutexType, T, A>
+    where
+        A: RingBuf<Item = T>,
+    {
+        /// Verification hook: read-only snapshot of the internal state.
+        /// `id` maps a value to an identifier which is reported (plus one) in
+        /// the `extra` field of send wait nodes.
+        pub fn verif_snapshot(&self, id: &dyn Fn(&T) -> u64) -> Snapshot {
+            let state = self.inner.lock();
+            let mut recv = alloc::vec::Vec::new();
+            state
+                .receive_waiters
+                .verif_for_each_oldest_first(1 << 16, &mut |n| {
+                    recv.push(recv_node_info(n))
+                });
+            let mut recv_rev = alloc::vec::Vec::new();
+            state
+                .receive_waiters
+                .verif_for_each_newest_first(1 << 16, &mut |n| {
+                    recv_rev.push(recv_node_info(n))
+                });
+            let mut send = alloc::vec::Vec::new();
+            state
+                .send_waiters
+                .verif_for_each_oldest_first(1 << 16, &mut |n| {
+                    send.push(send_node_info(n, id))
+                });
+            let mut send_rev = alloc::vec::Vec::new();
+            state
+                .send_waiters
+                .verif_for_each_newest_first(1 << 16, &mut |n| {
+                    send_rev.push(send_node_info(n, id))
+                });
+            Snapshot {
+                flags: alloc::vec![
+                    ("is_closed", state.is_closed as u64),
+                    ("buffer_len", state.buffer.len() as u64),
+                    ("capacity", state.buffer.capacity() as u64),
+                    ("can_push", state.buffer.can_push() as u64),
+                ],
+                queues: alloc::vec![
+                    ("receive_waiters", recv),
+                    ("receive_waiters_rev", recv_rev),
+                    ("send_waiters", send),
+                    ("send_waiters_rev", send_rev),
+                ],
+            }
+        }
+    }
+
+    impl<'a, MutexType: RawMutex, T, A> ChannelStream<'a, MutexType, T, A>
+    where
+        A: RingBuf<Item = T>,
+    {
+        /// Verification hook: wait node of the embedded receive future
+        pub fn verif_node(&self) -> Option<crate::verif::NodeInfo> {
+            self.future.as_ref().map(|f| f.verif_node())
+        }
+    }
+}
